@@ -1841,7 +1841,7 @@ class ASTAlterChangeExpression(ASTAlterExpressionBase):
 
     def source(self, sql_type: SQLType = SQLType.DEFAULT) -> str:
         """返回语法节点的 SQL 源码"""
-        return f"CHANGE {self.from_column_name} {self.to_expression.source(sql_type)}"
+        return f"CHANGE `{self.from_column_name}` {self.to_expression.source(sql_type)}"
 
 
 @dataclasses.dataclass(slots=True, frozen=True, eq=True)
@@ -1853,7 +1853,7 @@ class ASTAlterRenameColumnExpression(ASTAlterExpressionBase):
 
     def source(self, sql_type: SQLType = SQLType.DEFAULT) -> str:
         """返回语法节点的 SQL 源码"""
-        return f"RENAME COLUMN {self.from_column_name} TO {self.to_column_name}"
+        return f"RENAME COLUMN `{self.from_column_name}` TO `{self.to_column_name}`"
 
 
 @dataclasses.dataclass(slots=True, frozen=True, eq=True)
@@ -1864,7 +1864,7 @@ class ASTAlterDropColumnExpression(ASTAlterExpressionBase):
 
     def source(self, sql_type: SQLType = SQLType.DEFAULT) -> str:
         """返回语法节点的 SQL 源码"""
-        return f"DROP COLUMN {self.column_name}"
+        return f"DROP COLUMN `{self.column_name}`"
 
 
 @dataclasses.dataclass(slots=True, frozen=True, eq=True)
